@@ -18,7 +18,28 @@ from .. import common
 PROP = "C13"
 
 
+_PENDING = {}
+
+
+def _pending_cls(ss):
+    """A user-defined SequenceStart whose value is not available yet (Sequencer!Unreadable)."""
+    if id(ss) not in _PENDING:
+        class PendingStart(ss.SequenceStart):
+            def __init__(self):
+                self.resolved = None
+
+            @property
+            def value(self):
+                if self.resolved is None:
+                    raise RuntimeError("sequence start not received yet")
+                return self.resolved
+        _PENDING[id(ss)] = PendingStart
+    return _PENDING[id(ss)]
+
+
 def _mk_start(ss, kind, value):
+    if kind == "pending":
+        return _pending_cls(ss)()
     if kind == "simple":
         return ss.SequenceStart.zero() if value == 0 else ss.SimpleSequenceStart(value)
     if kind == "account":
@@ -40,13 +61,23 @@ def _replay(ss, ps, hist):
     """Returns None or (index, expected, observed)."""
     h0 = hist[0]
     seqr = ps.PacketSequencer(_mk_start(ss, h0["kind"], h0["value"]))
+    cur = None
     for i, ev in enumerate(hist[1:], 1):
         if ev["op"] == "next":
             got = seqr.next_sequence()
             if got != ev["ret"]:
                 return i, ev["ret"], got
+        elif ev["op"] == "next_fail":
+            try:
+                got = seqr.next_sequence()
+                return i, "an exception (the start cannot be read)", got
+            except RuntimeError:
+                pass
+        elif ev["op"] == "resolve":
+            cur.resolved = ev["value"]
         else:
-            seqr.set_sequence_start(_mk_start(ss, ev["kind"], ev["value"]))
+            cur = _mk_start(ss, ev["kind"], ev["value"])
+            seqr.set_sequence_start(cur)
     return None
 
 
@@ -60,7 +91,7 @@ def _hist_key(hist, upto):
             if run:
                 parts.append(f"next*{run}")
             run = 0
-            parts.append(f"{ev['op']}({ev['kind']},{ev['value']})")
+            parts.append(f"{ev['op']}({ev.get('kind', '')},{ev.get('value', '')})")
     if run:
         parts.append(f"next*{run}")
     return " ".join(parts)
@@ -79,13 +110,27 @@ def _record(ss, ps, rng, n):
     seqr = ps.PacketSequencer(_mk_start(ss, k, val))
     ev = []
     p_set = rng.choice([0.02, 0.1, 0.3]) if n <= 200 else rng.choice([0.0, 0.002, 0.01])
+    pending = None
     for _ in range(n):
-        if rng.random() < p_set:
+        if pending is not None and rng.random() < 0.5:
+            pending.resolved = rng.randrange(0, 1757)
+            ev.append({"op": "resolve", "value": pending.resolved})
+            pending = None
+        elif rng.random() < p_set:
+            if rng.random() < 0.15:
+                pending = _mk_start(ss, "pending", 0)
+                seqr.set_sequence_start(pending)
+                ev.append({"op": "set", "kind": "pending", "value": 0})
+                continue
+            pending = None
             k2, v2 = rs()
             seqr.set_sequence_start(_mk_start(ss, k2, v2))
             ev.append({"op": "set", "kind": k2, "value": v2})
         else:
-            ev.append({"op": "next", "ret": seqr.next_sequence()})
+            try:
+                ev.append({"op": "next", "ret": seqr.next_sequence()})
+            except RuntimeError as e:
+                ev.append({"op": "next_fail", "exc": str(e)[:40]})
     return {"init": {"kind": k, "value": val}, "events": ev}
 
 
@@ -94,14 +139,14 @@ def run(tier, corrupt=False):
     cfg = "MC_Sequencer.cfg" if tier == "quick" else "MC_Sequencer_thorough.cfg"
     r = run_tlc("MC_Sequencer", cfg, workers=1, coverage=True, timeout=3000)
     require(r.ok, "model-level failure in MC_Sequencer (spec problem):\n" + r.tail())
-    for a in ("DoNext", "DoSet"):
+    for a in ("DoNext", "DoSet", "DoFail", "DoResolve"):
         require(r.coverage.get(a, 0) > 0, f"vacuity: {a} never fired")
     hists = [p["hist"] for p in r.printed if isinstance(p, dict) and "hist" in p]
     require(len(hists) > 100, "TLC emitted no histories")
     cov = {"states": r.distinct, "transitions": r.generated,
            "model_runs": [{"module": "MC_Sequencer", "cfg": cfg, "distinct_states": r.distinct,
                            "properties": ["TypeOK", "CounterTracksServed", "TwoPeers", "Lockstep", "UpdateKeepsCounter"],
-                           "action_counts": {a: r.coverage.get(a) for a in ("DoNext", "DoSet")}}]}
+                           "action_counts": {a: r.coverage.get(a) for a in ("DoNext", "DoSet", "DoSetPending", "DoFail", "DoResolve")}}]}
     # unbounded histories: IndInv (counter = served mod 10, every number so far in lockstep) is inductive (Apalache)
     ok0, _, w0 = run_apalache("Apa_Sequencer", "IndInv", init="Init", length=0)
     ok1, _, w1 = run_apalache("Apa_Sequencer", "IndInv", init="IndInit", length=1)
@@ -167,10 +212,18 @@ def replay(path):
         ps = imp("eolib.packet.packet_sequencer")
         hist = case["hist"] if case["kind"] == "R" else [dict(op="init", **case["init"])] + case["events"]
         seqr = ps.PacketSequencer(_mk_start(ss, hist[0]["kind"], hist[0]["value"]))
+        cur = None
         for ev in hist[1:]:
-            if ev["op"] == "next":
-                print("next ->", seqr.next_sequence(), "recorded/model", ev.get("ret"))
+            if ev["op"] in ("next", "next_fail"):
+                try:
+                    print("next ->", seqr.next_sequence(), "recorded/model", ev.get("ret", "an exception"))
+                except RuntimeError as e:
+                    print("next -> raised", e, "recorded/model", ev.get("ret", "an exception"))
+            elif ev["op"] == "resolve":
+                cur.resolved = ev["value"]
+                print("resolve", ev["value"])
             else:
-                seqr.set_sequence_start(_mk_start(ss, ev["kind"], ev["value"]))
+                cur = _mk_start(ss, ev["kind"], ev["value"])
+                seqr.set_sequence_start(cur)
                 print("set", ev["kind"], ev["value"])
     return 0
